@@ -70,7 +70,8 @@ def jobs_from_cases(chk, cases):
 # --------------------------------------------------------------------------- (b): grammar level
 
 def nest(open_, inner, close, d):
-    return " ".join([open_] * d + [inner] + [close] * d)
+    # one construct per line: a diagnostic then quotes one short line, not the whole file
+    return "\n".join([open_] * d + [inner] + [close] * d)
 
 
 def grammar_inputs(chk, templates):
@@ -85,12 +86,12 @@ def grammar_inputs(chk, templates):
                 out += [(f, "body-hole", "nest-block-%d" % d, nest("{", call, "}", d)),
                         (f, "body-hole", "nest-loop-%d" % d, nest("loop {", call, "}", d)),
                         (f, "body-hole", "nest-if-%d" % d, nest("if ( 1 ) {", call, "}", d)),
-                        (f, "body-hole", "nest-ifelse-%d" % d, " ".join(["if ( 1 ) { } else"] * d) + " { " + call + " }"),
+                        (f, "body-hole", "nest-ifelse-%d" % d, "\n".join(["if ( 1 ) { } else"] * d) + " { " + call + " }"),
                         (f, "body-hole", "nest-times-%d" % d, nest("times ( 2 ) {", call, "}", d)),
                         (f, "body-hole", "nest-while-%d" % d, nest("while ( 1 ) {", call, "}", d)),
-                        (f, "body-hole", "nest-dowhile-%d" % d, " ".join(["do {"] * d + [call] + ["} while ( 1 ) ;"] * d)),
-                        (f, "body-hole", "many-labels-%d" % d, " ".join("l%d : +1 :" % i for i in range(d)) + " " + call),
-                        (f, "body-hole", "many-gotos-%d" % d, "l0 : " + " ".join("goto l0 ;" for i in range(d)))]
+                        (f, "body-hole", "nest-dowhile-%d" % d, "\n".join(["do {"] * d + [call] + ["} while ( 1 ) ;"] * d)),
+                        (f, "body-hole", "many-labels-%d" % d, "\n".join("l%d : +1 :" % i for i in range(d)) + "\n" + call),
+                        (f, "body-hole", "many-gotos-%d" % d, "l0 :\n" + "\n".join("goto l0 ;" for i in range(d)))]
             if (f, "expr-hole") in templates:
                 out += [(f, "expr-hole", "nest-paren-%d" % d, nest("(", "1", ")", d)),
                         (f, "expr-hole", "nest-neg-%d" % d, " ".join(["-"] * d + ["1"])),
@@ -106,7 +107,7 @@ def grammar_inputs(chk, templates):
             if (f, "item-hole") in templates:
                 out += [(f, "item-hole", "nest-meta-object-%d" % d, "meta { a : " + nest("{ a :", "1", "}", d) + " }"),
                         (f, "item-hole", "nest-meta-array-%d" % d, "meta { a : " + nest("[", "1", "]", d) + " }"),
-                        (f, "item-hole", "many-consts-%d" % d, " ".join("const int QC%d = %s ;" % (i, "QC%d + 1" % (i + 1) if i + 1 < d else "1") for i in range(d)))]
+                        (f, "item-hole", "many-consts-%d" % d, "\n".join("const int QC%d = %s ;" % (i, "QC%d + 1" % (i + 1) if i + 1 < d else "1") for i in range(d)))]
         lits = ["2147483647", "2147483648", "4294967295", "4294967296", "- 2147483648", "- 2147483649", "0x7FFFFFFF", "0x80000000",
                 "0xFFFFFFFF", "0x100000000", "0b" + "1" * 32, "0b" + "1" * 33, "9" * 400, "0x" + "F" * 400, "0" * 400,
                 "340282350000000000000000000000000000000.0", "340282360000000000000000000000000000000.0", "9" * 400 + ".0",
@@ -125,7 +126,7 @@ def grammar_inputs(chk, templates):
         if (f, "body-hole") in templates:
             stmts = ["2147483647 : " + call, "- 2147483648 : " + call, "+ 2147483647 : + 1 : " + call, "4294967296 : " + call,
                      "0 : - 1 : - 2147483648 : " + call, "+ 0 : " + call, "- 0 : " + call, "1 : 1 : 1 : " + call,
-                     " ".join([call] * 20000), "ins_0 ( " + " , ".join(["1"] * 2000) + " ) ;", "int " + " , ".join("v%d" % i for i in range(2000)) + " ;",
+                     "\n".join([call] * 20000), "ins_0 ( " + " , ".join(["1"] * 2000) + " ) ;", "int " + " , ".join("v%d" % i for i in range(2000)) + " ;",
                      "interrupt [ 2147483647 ] : " + call, "interrupt [ 2147483648 ] : " + call, "interrupt [ - 2147483648 ] : " + call,
                      '{ "' + "E" * 1000 + '" } : ' + call, '{ "ENHLENHL" } : ' + call, '{ "-" } : ' + call, '{ "*-*-*" } : ' + call,
                      "!E " + call, "!ENHL " + call, "!* " + call, "!- " + call, "!4567 " + call,
@@ -147,7 +148,7 @@ def grammar_jobs(chk, templates):
     for f, kind, label, text in grammar_inputs(chk, templates):
         t = templates[(f, kind)]
         hole = "@EXPR@" if kind == "expr-hole" else "@BODY@"
-        data = (" ".join(t["toks"]) + "\n").replace(hole, text).encode()
+        data = (" ".join(t["toks"]) + "\n").replace(hole, "\n" + text + "\n").encode()
         jobs.append(tc.Job(t["tool"], "compile", t["game"], data, "spec", gen={"class": "grammar:" + label.rsplit("-", 1)[0], "fmt": f, "label": label}))
     return jobs
 
